@@ -23,8 +23,11 @@ CONSTANTS Items, KVKeys
 
 VARIABLES l, cnt, okrf, okkeys, written, closed, open, lateStart,
           vlive,    \* ids of the shared index that may be live now: an add was started and no delete has completed since
-          sopen     \* [search call id -> ids that may have been live at some instant of the search so far]
-tvars == <<l, cnt, okrf, okkeys, written, closed, open, lateStart, vlive, sopen>>
+          sopen,    \* [search call id -> ids that may have been live at some instant of the search so far]
+          ixsure,   \* index names that surely exist: a VCreate returned nil and no VDeleteIndex of that name has started since
+          copen,    \* [open VCreate call id -> [ix: its name, free: the name may have been free at some instant of the call so far]]
+          dopen     \* [open VDeleteIndex call id -> its name]
+tvars == <<l, cnt, okrf, okkeys, written, closed, open, lateStart, vlive, sopen, ixsure, copen, dopen>>
 
 \* C06 under concurrency: a search returns only vectors that were live at some instant between its call and its
 \* return -- never one whose delete had completed before the search started (ids are added/deleted by their owner
@@ -42,6 +45,7 @@ Consume == l' = l + 1
 TraceInit == /\ l = 1 /\ cnt = [i \in Items |-> 0] /\ okrf = [i \in Items |-> 0] /\ okkeys = [i \in Items |-> {}]
              /\ written = [k \in KVKeys |-> {"absent"}] /\ closed = FALSE /\ open = {} /\ lateStart = {}
              /\ vlive = Items \cup {"EVOLVED"} /\ sopen = <<>>
+             /\ ixsure = {} /\ copen = <<>> /\ dopen = <<>>
 
 T_Call == /\ IsEv("call") /\ Consume
           /\ open' = open \cup {Ev.id}
@@ -51,12 +55,20 @@ T_Call == /\ IsEv("call") /\ Consume
           /\ sopen' = IF Ev.op = "VSearch" THEN [x \in DOMAIN sopen \cup {Ev.id} |-> IF x = Ev.id THEN vlive ELSE sopen[x]]
                       ELSE IF Ev.op \in Adders THEN [x \in DOMAIN sopen |-> sopen[x] \cup SeqToSet(Ev.vids)]
                       ELSE sopen
+          \* index names: a create may succeed only if its name may have been free at some instant of the call
+          /\ copen' = IF Ev.op = "VCreate"
+                       THEN [x \in DOMAIN copen \cup {Ev.id} |-> IF x = Ev.id THEN [ix |-> Ev.ix, free |-> Ev.ix \notin ixsure] ELSE copen[x]]
+                       ELSE IF Ev.op = "VDeleteIndex"
+                       THEN [x \in DOMAIN copen |-> IF copen[x].ix = Ev.ix THEN [copen[x] EXCEPT !.free = TRUE] ELSE copen[x]]
+                       ELSE copen
+          /\ dopen' = IF Ev.op = "VDeleteIndex" THEN [x \in DOMAIN dopen \cup {Ev.id} |-> IF x = Ev.id THEN Ev.ix ELSE dopen[x]] ELSE dopen
+          /\ ixsure' = IF Ev.op = "VDeleteIndex" THEN ixsure \ {Ev.ix} ELSE ixsure
           /\ UNCHANGED <<cnt, okrf, okkeys, closed>>
 
 T_RfLin == /\ IsEv("rf.lin") /\ Consume
            /\ Ev.n = cnt[Ev.item] + 1                    \* exactly the next count: no lost update, no repeat
            /\ cnt' = [cnt EXCEPT ![Ev.item] = Ev.n]
-           /\ UNCHANGED <<okrf, okkeys, written, closed, open, lateStart, vlive, sopen>>
+           /\ UNCHANGED <<okrf, okkeys, written, closed, open, lateStart, vlive, sopen, ixsure, copen, dopen>>
 
 T_Ret == /\ IsEv("ret") /\ Consume
          /\ Ev.id \in open
@@ -70,18 +82,36 @@ T_Ret == /\ IsEv("ret") /\ Consume
                /\ NoDup(Ev.ids) /\ Len(Ev.ids) <= 3
          /\ vlive' = IF Ev.op = "VDelete" /\ Ev.ok THEN vlive \ SeqToSet(Ev.vids) ELSE vlive
          /\ sopen' = IF Ev.op = "VSearch" THEN [x \in DOMAIN sopen \ {Ev.id} |-> sopen[x]] ELSE sopen
+         \* "exactly one creator of a name wins": a VCreate that returns nil needs an instant at which the name was free;
+         \* once it has returned, the other creators of that name still running need a VDeleteIndex of it (one in flight
+         \* now, or one that starts later) to succeed as well
+         /\ ((Ev.op = "VCreate" /\ Ev.ok) => copen[Ev.id].free)
+         /\ copen' = IF Ev.op = "VCreate"
+                      THEN [x \in DOMAIN copen \ {Ev.id} |->
+                              IF Ev.ok /\ copen[x].ix = Ev.ix
+                              THEN [copen[x] EXCEPT !.free = \E d \in DOMAIN dopen : dopen[d] = Ev.ix]
+                              ELSE copen[x]]
+                      ELSE copen
+         /\ dopen' = IF Ev.op = "VDeleteIndex" THEN [x \in DOMAIN dopen \ {Ev.id} |-> dopen[x]] ELSE dopen
+         /\ ixsure' = IF Ev.op = "VCreate" /\ Ev.ok /\ ~\E d \in DOMAIN dopen : dopen[d] = Ev.ix THEN ixsure \cup {Ev.ix} ELSE ixsure
          /\ UNCHANGED <<cnt, written, closed, lateStart>>
 
 T_Closed == /\ IsEv("close.done") /\ Consume /\ closed' = TRUE
-            /\ UNCHANGED <<cnt, okrf, okkeys, written, open, lateStart, vlive, sopen>>
+            /\ UNCHANGED <<cnt, okrf, okkeys, written, open, lateStart, vlive, sopen, ixsure, copen, dopen>>
+
+\* read after a VLink and a VUnlink of the same edge, issued at the same time, have both returned: the forward list of
+\* the source and the reverse list of the target agree about the edge (no half edge), whichever call took effect last
+T_EdgeView == /\ IsEv("edgeview") /\ Consume
+              /\ Ev.fwd = Ev.rev
+              /\ UNCHANGED <<cnt, okrf, okkeys, written, closed, open, lateStart, vlive, sopen, ixsure, copen, dopen>>
 
 T_Final == /\ IsEv("final") /\ Consume
            /\ open = {}                                   \* every call returned
            /\ Ev.count = okrf[Ev.item]                    \* every acknowledged reinforcement is counted, none twice
            /\ okkeys[Ev.item] \subseteq {Ev.keys[i] : i \in 1..Len(Ev.keys)}   \* every merged key kept
-           /\ UNCHANGED <<cnt, okrf, okkeys, written, closed, open, lateStart, vlive, sopen>>
+           /\ UNCHANGED <<cnt, okrf, okkeys, written, closed, open, lateStart, vlive, sopen, ixsure, copen, dopen>>
 
-TraceNext == T_Call \/ T_RfLin \/ T_Ret \/ T_Closed \/ T_Final
+TraceNext == T_Call \/ T_RfLin \/ T_Ret \/ T_Closed \/ T_Final \/ T_EdgeView
 TraceSpec == TraceInit /\ [][TraceNext]_tvars
 
 ASSUME TLCSet(1, 0)
